@@ -9,11 +9,12 @@ all reports for one (property, seed) must be identical. Exit 0 if so, 1 otherwis
 import json, os, subprocess, sys
 HOME=os.path.dirname(os.path.abspath(__file__))
 BIN=os.path.join(HOME,'.build','sim'); RACE=os.path.join(HOME,'.build','sim-race')
+YIELD=os.path.join(HOME,'.build','sim-yield'); YIELDRACE=os.path.join(HOME,'.build','sim-yield-race')
 PROPS=['C01','C03','C09','C10','C12','C13','C14','C15','C16','C17','C20']
 RACEPROPS={'C12','C14','C20'}
 def run(binp, prop, seed, n, gmp):
     env=dict(os.environ, GOMAXPROCS=str(gmp), VERIF_HOME=HOME)
-    if binp==RACE: env['GORACE']='halt_on_error=1 exitcode=66'
+    if binp in (RACE,YIELDRACE): env['GORACE']='halt_on_error=1 exitcode=66'
     p=subprocess.run([binp,'worker','-prop',prop,'-tier','quick','-seed',str(seed),'-start','0','-stride','1','-maxruns',str(n),'-budget','100000','-evlog'],
                      stdout=subprocess.PIPE, stderr=subprocess.PIPE, text=True, env=env)
     for line in p.stdout.splitlines():
@@ -33,6 +34,9 @@ def main():
                 # race builds are compared with each other: their event log leaves out the node-ID
                 # counter, because sync.Pool drops items at random under the race detector
                 groups.append([('race GOMAXPROCS=%d'%g, run(RACE,prop,seed,nn,g)) for g in (1,16)])
+                if os.path.exists(YIELD):
+                    # instrumented builds (a hand-off point before every statement) have their own schedules
+                    groups.append([('instrumented GOMAXPROCS=%d'%g, run(YIELD,prop,seed,nn,g)) for g in (1,16,4)])
             ok=True; ref=None
             for reports in groups:
                 gref=reports[0][1][0]
